@@ -243,16 +243,16 @@ def build_corpus(ctx):
                           'fd/socket': 'all sequences <= 3 x {pty master, socket fd, pipe | socketpair, TCP} x peer '
                                        '{open, closes at 0..2, resets at 0..2 (TCP)}'}
         else:
-            cases += pty_enumeration(ctx, 4, [9, 19], PRIMARY + DEAD[:1], 'pty-enum4', with_normal_exit=False)
-            cases += pty_enumeration(ctx, 4, [9, 19], DEAD[1:] + mid(4, True), 'pty-enum4-mid', limit=40000, rng=rng,
-                                     with_normal_exit=False)
-            cases += pty_enumeration(ctx, 3, [1, 2, 9, 15, 18, 19], PRIMARY + DEAD + mid(3, True), 'pty-enum3-allsigs')
+            cases += pty_enumeration(ctx, 4, [9, 19], PRIMARY[:3], 'pty-enum4', with_normal_exit=False)
+            cases += pty_enumeration(ctx, 4, [9, 19], PRIMARY[3:] + DEAD + mid(4, True), 'pty-enum4-sampled', limit=25000,
+                                     rng=rng, with_normal_exit=False)
+            cases += pty_enumeration(ctx, 3, [1, 2, 9, 15, 18, 19], PRIMARY + DEAD + mid(3, False), 'pty-enum3-allsigs')
             cases += fd_enumeration(4)
             cases += sweep(ctx, range(0, 256, 4), TERM_SIGNALS, npaths=6)
-            exhaustive = {'pty': 'all sequences <= 4 over 14 operations x 5 dispositions (normal, ignores HUP+INT, stopped, '
-                                 'stopped+ignores, already exited); all sequences <= 3 over 19 operations (six signals for '
-                                 'kill) x 13 dispositions incl. deaths / stops at every position; the other deaths at '
-                                 'length 4 sampled (40000, seeded)',
+            exhaustive = {'pty': 'all sequences <= 4 over 14 operations x 3 dispositions (normal, ignores HUP+INT, stopped); all '
+                                 'sequences <= 3 over 19 operations (six signals for kill) x 9 dispositions (+ stopped and '
+                                 'ignoring, already exited / killed, exits before operation 2 / 3, killed before operation 2); '
+                                 'length 4 under the other dispositions sampled (25000, seeded)',
                           'fd/socket': 'all sequences <= 4 x {pty master, socket fd, pipe | socketpair, TCP} x peer '
                                        '{open, closes at 0..3, resets at 0..3 (TCP)}'}
     else:
@@ -263,12 +263,14 @@ def build_corpus(ctx):
                           'pty': 'all sequences <= 3 over 13 operations x 9 dispositions'}
         else:
             cases += sweep(ctx, range(256), TERM_SIGNALS)
-            cases += pty_enumeration(ctx, 4, [9, 19], DEAD + mid(4, False), 'pty-enum4-dead', with_normal_exit=False)
-            cases += pty_enumeration(ctx, 3, [1, 2, 9, 15, 18, 19], PRIMARY + DEAD + mid(3, True), 'pty-enum3-allsigs')
+            cases += pty_enumeration(ctx, 4, [9, 19], DEAD[:1] + mid(4, False)[:2], 'pty-enum4-dead', with_normal_exit=False)
+            cases += pty_enumeration(ctx, 4, [9, 19], DEAD[1:] + mid(4, False)[2:], 'pty-enum4-sampled', limit=25000, rng=rng,
+                                     with_normal_exit=False)
+            cases += pty_enumeration(ctx, 3, [1, 2, 9, 15, 18, 19], PRIMARY + DEAD + mid(3, False), 'pty-enum3-allsigs')
             exhaustive = {'sweep': 'all 256 codes and %d signals x all 12 pty / 4 popen paths, + run(withexitstatus=True)' % len(TERM_SIGNALS),
-                          'pty': 'all sequences <= 4 over 14 operations x 6 death dispositions (already exited / killed, exits '
-                                 'before operation 2 / 3 / 4, killed before operation 2); all sequences <= 3 over 19 operations x 13 '
-                                 'dispositions'}
+                          'pty': 'all sequences <= 4 over 14 operations x 3 death dispositions (already exited, exits before '
+                                 'operation 2 / 3); all sequences <= 3 over 19 operations x 9 dispositions; length 4 under the other '
+                                 'death dispositions sampled (25000, seeded)'}
     return cases, exhaustive
 
 
@@ -548,7 +550,7 @@ def run(ctx):
                 '(return values, object fields, /proc facts after every operation); non-trivial = the trace contains an '
                 'environment action or an operation after which terminated / closed / process state / descriptor state / '
                 'flag_eof differ from before',
-        'exhaustive': exhaustive,
+        'exhaustive': not any('sampled' in g for g in gens), 'exhaustive_space': exhaustive,
         'logged_operations': nops,
         'by_generator': dict(gens),
         'model': {'module': 'MCLifecycle', 'cmd': mc['cmd'], 'depth': mc['depth'],
